@@ -12,7 +12,7 @@ from .. import refsem as R
 ID = 'C10'
 LEVEL = 'exploration'
 RULE = ('Hypothesis arguments (generic / modal-heavy / quantifier-heavy / biased to validity by instantiating standard valid '
-        'forms; first-order modal ones included) x logic, then '
+        'forms; first-order modal ones included; a sixth of the cases from the witness sub-domain: one literal per constant for 2-3 constants in a drawn order of appearance, an existential premise, the body about one of the constants as conclusion) x logic, then '
         'metamorphic variants: (a) the conclusion inserted among the premises at a drawn position (and, in half the cases, a second time) => must be valid; '
         '(b) a drawn extra premise added to an argument found valid => must not become invalid with a limit-free open '
         'branch; (c) injective renamings of sentence letters, constants, user predicates (arity kept) and bound '
@@ -149,14 +149,28 @@ def run_shard(shard, acc):
               phases=[Phase.generate], suppress_health_check=list(HealthCheck))
     @given(st.data())
     def body(data):
-        pname = ('generic', 'modal-heavy', 'quant-heavy', 'valid-biased', 'valid-biased')[data.draw(st.integers(0, 4))]
-        pred = {'modal-heavy': R.is_modal, 'quant-heavy': R.is_quantified}.get(pname)
+        pname = ('generic', 'modal-heavy', 'quant-heavy', 'valid-biased', 'valid-biased', 'witness')[data.draw(st.integers(0, 5))]
+        pred = {'modal-heavy': R.is_modal, 'quant-heavy': R.is_quantified, 'witness': R.is_quantified}.get(pname)
         logic = data.draw(gen.logic_name(pred))
         prof = PROFILES['modal-heavy' if (pname == 'valid-biased' and R.is_modal(logic)) else pname if pname in PROFILES else 'generic'].for_logic(logic)
         if pname == 'valid-biased':
             # monotonicity only bites on valid arguments: instances of standard valid forms in monotone contexts
             from . import c09
             prem, con = c09.wrapped_valid(data, logic)
+        elif pname == 'witness':
+            # sub-domain where only names and their order of appearance differ between variants: one literal per constant
+            # (2-3 constants in a drawn order of appearance, each with its own predicate), an existential premise at a drawn
+            # position, and the existential's body about one of the constants as conclusion -- the verdict hangs on the witness
+            pool = [A.const(i, sub) for sub in (0, 1) for i in range(4)]
+            start = data.draw(st.integers(0, len(pool) - 3))
+            cs = list(data.draw(st.permutations(pool[start:start + 3])))[:data.draw(st.integers(2, 3))]
+            prem = [A.pred((1 + k, 0, 1), c) for k, c in enumerate(cs)]
+            x = A.var(0)
+            ex = A.quant('Existential', x, A.pred((0, 0, 1), x))
+            if data.draw(st.booleans()):
+                ex = A.neg(A.quant('Universal', x, A.neg(A.pred((0, 0, 1), x))))
+            prem.insert(data.draw(st.integers(0, len(prem))), ex)
+            con = A.pred((0, 0, 1), cs[data.draw(st.integers(0, len(cs) - 1))])
         else:
             prem, con = data.draw(gen.argument(prof, 3))
         case = prover.mk_case(logic, prem, con, group=data.draw(st.booleans()), rank=data.draw(st.booleans()),
@@ -171,7 +185,7 @@ def run_shard(shard, acc):
             return
         acc.inconclusive += info['limited']
         acc.case((logic, case['premises'], case['conclusion'], case['group'], case['rank'], case['order']),
-                 nontrivial=info['pairs'] >= 2, classes=tuple({'base:' + info['base'], *info['kinds']}),
+                 nontrivial=info['pairs'] >= 2, classes=tuple({'base:' + info['base'], 'profile:' + pname, *info['kinds']}),
                  sample=prover.case_str(case) + f' => {info["base"]}; {info["pairs"]} comparable variants ({", ".join(sorted(set(info["kinds"])))})')
         acc.extra['variant_pairs'] = acc.extra.get('variant_pairs', 0) + info['pairs']
         for fp, d in res:
